@@ -12,6 +12,7 @@ import ast
 from sa import sym, boolalg
 from sa.sym import show, num, num_value, atoms_of
 from sa.model import dotted, own_calls, own_nodes
+from . import common
 
 IMG = "toasty.image"
 
@@ -118,8 +119,13 @@ def _r1(run, ev):
         "CD2_2": sym.neg(sym.mul(sy("CDELT2"), sy("PC2_2|1.0"))),
         "CRPIX2": sym.sub(sym.add(hgt, num(1)), sy("CRPIX2")),
     }
+    escaped = common.opaque_project_calls(project, r, [h])
     for key, w in want.items():
         if key not in final:
+            if escaped:
+                run.undecided("C16.R1", f, escaped[0].node, "the header is handed to %s, which the analysis does not follow: cannot tell what %s becomes" % (
+                    show(escaped[0].term[1])[:60], key), kind="header-escapes")
+                return
             run.violated("C16.R1", f, None, "the reflected header never sets %s" % key, kind="missing-" + key)
             continue
         got = _renorm(_canon_header_terms(final[key][0], h))
@@ -146,10 +152,15 @@ def _r2(run):
     for q, wcs_attr in ((IMG + ".Image.flip_parity", "_wcs"), (IMG + ".ImageDescription.flip_parity", "wcs")):
         f = project.fn(q)
         run.note_func(f)
-        ev = sym.make_evaluator(project, IMG, [])
+        # the method with everything it delegates to spliced in (helpers of the module, methods of the class and of its
+        # project base classes, setters): what counts is the reflection call and where its result is stored
+        ev = sym.make_evaluator(project, IMG, [], inline_local=True, no_inline=("_flip_wcs_parity", "_wcs_to_parity_sign"))
+        ev.self_class = q.rsplit(".", 1)[0]
+        ev.inline_resolved = True
+        ev.no_inline = ("_flip_wcs_parity", "_wcs_to_parity_sign", "asarray", "aspil", "_as_writeable_array", "get_parity_sign")
         r = ev.run(f.node)
         calls = [e for e in r.events if e.kind == "call" and e.term[1] == ("sym", "_flip_wcs_parity")]
-        st = [e for e in r.events if e.kind == "store" and e.term[1][0] == ("attr", ("sym", "self"), wcs_attr)]
+        st = [e for e in r.events if e.kind == "store" and e.term[1][0] in (("attr", ("sym", "self"), wcs_attr), ("attr", ("sym", "self"), "_wcs"), ("attr", ("sym", "self"), "wcs"))]
         slf = ("sym", "self")
         rows = {("attr", slf, "height"), ("item", ("attr", slf, "shape"), 0), ("item", ("attr", ("call", ("attr", slf, "asarray"), (), ()), "shape"), 0)}
         cols = {("attr", slf, "width"), ("item", ("attr", slf, "shape"), 1), ("item", ("attr", ("call", ("attr", slf, "asarray"), (), ()), "shape"), 1)}
@@ -161,6 +172,9 @@ def _r2(run):
             run.holds("C16.R2", f, calls[0].node, "%s: wcs <- _flip_wcs_parity(wcs, <number of rows>)" % f.short)
         elif calls and a_h in cols:
             run.violated("C16.R2", f, calls[0].node, "%s reflects about the image *width*; the rows are reversed, so the reflection must use the height" % f.short, kind="width-not-height")
+        elif not calls and common.opaque_project_calls(project, r, [slf]):
+            esc = common.opaque_project_calls(project, r, [slf])
+            run.undecided("C16.R2", f, esc[0].node, "%s delegates to %s, which the analysis does not follow" % (f.short, show(esc[0].term[1])[:60]), kind="flip-delegated")
         else:
             run.violated("C16.R2", f, calls[0].node if calls else None, "%s does not replace its WCS by _flip_wcs_parity(<its wcs>, self.height)" % f.short, kind="flip-call")
         if "ImageDescription" not in q:
@@ -222,6 +236,9 @@ def _r3(run, ev):
                 ok = lt and gotdet == det
         if ok:
             run.holds("C16.R3", f, pos[0][2], "parity sign +1 iff CD1_1*CD2_2 - CD1_2*CD2_1 < 0 with CDi_j = CDELTi*PCi_j")
+        elif gotdet is not None and gotdet != det and common.opaque_project_calls(project, r, [h, wcs_p]):
+            esc = common.opaque_project_calls(project, r, [h, wcs_p])
+            run.undecided("C16.R3", f, esc[0].node, "the determinant is computed by %s, which the analysis does not follow" % show(esc[0].term[1])[:60], kind="determinant-delegated")
         elif gotdet is not None and gotdet != det:
             run.violated("C16.R3", f, pos[0][2], "the determinant is computed as %s, expected %s (CDi_j = CDELTi * PCi_j): the sign comes out wrong for some rotated / "
                          "unequal-scale WCS" % (show(gotdet)[:160], show(det)), kind="determinant")
@@ -230,7 +247,11 @@ def _r3(run, ev):
     for q in (IMG + ".Image.ensure_negative_parity", IMG + ".ImageDescription.ensure_negative_parity"):
         g = project.fn(q)
         run.note_func(g)
-        rg = sym.make_evaluator(project, IMG, []).run(g.node)
+        evg = sym.make_evaluator(project, IMG, [], inline_local=True, no_inline=("_flip_wcs_parity", "_wcs_to_parity_sign"))
+        evg.self_class = q.rsplit(".", 1)[0]
+        evg.inline_resolved = True
+        evg.no_inline = ("_flip_wcs_parity", "_wcs_to_parity_sign", "flip_parity", "get_parity_sign", "asarray")
+        rg = evg.run(g.node)
         fl = [e for e in rg.events if e.kind == "call" and e.term[1] == ("attr", ("sym", "self"), "flip_parity")]
         want = sym.cmp("Eq", ("call", ("attr", ("sym", "self"), "get_parity_sign"), (), ()), num(1))
         if len(fl) == 1 and boolalg.equiv(boolalg.conj(fl[0].pc), want) is True:
@@ -241,10 +262,15 @@ def _r3(run, ev):
                          kind="ensure-condition")
     for q in (IMG + ".Image.get_parity_sign", IMG + ".ImageDescription.get_parity_sign"):
         g = project.fn(q)
-        rg = sym.make_evaluator(project, IMG, []).run(g.node)
+        evg = sym.make_evaluator(project, IMG, [], inline_local=True, no_inline=("_flip_wcs_parity", "_wcs_to_parity_sign"))
+        evg.self_class = q.rsplit(".", 1)[0]
+        evg.inline_resolved = True
+        evg.no_inline = ("_flip_wcs_parity", "_wcs_to_parity_sign", "flip_parity", "asarray")
+        rg = evg.run(g.node)
         last = rg.returns[-1][1] if rg.returns else None
         attr = "_wcs" if ".Image." in q else "wcs"
-        if last != ("call", ("sym", "_wcs_to_parity_sign"), (("attr", ("sym", "self"), attr),), ()):
+        accepted = [("call", ("sym", "_wcs_to_parity_sign"), (("attr", ("sym", "self"), a_),), ()) for a_ in (attr, "wcs", "_wcs")]
+        if last not in accepted:
             run.violated("C16.R3", g, None, "%s does not return _wcs_to_parity_sign(self.%s)" % (g.short, attr), kind="get-parity")
 
 
